@@ -254,6 +254,8 @@ func Run(c *core.Ctx) int {
 			}
 			p := newProg("aliasing-drawn" + sfx)
 			genAliasDrawn(newAliasGen(p, r), c.N(70, 400))
+			addGen(p)
+			p = newProg("aliasing-go" + sfx)
 			genAliasGo2JS(p, r, c.N(50, 300))
 			addGen(p)
 		}
